@@ -58,7 +58,7 @@ func init() {
 					case 0:
 						segs = append(segs, pick("Max-Age", "max-age", "MAX-AGE", "maxage", "m")+"="+pick("0", "5", "3600", "-1", "x", "", "9223372036854775807", "9223372036854775808", "1 2"))
 					case 1:
-						segs = append(segs, pick("Expires", "expires", "EXPIRES")+"="+pick("Tue, 10 Nov 2009 23:00:00 GMT", "Mon, 01 Jan 2024 00:00:00 GMT", "Fri, 31 Dec 2100 23:59:59 GMT"))
+						segs = append(segs, pick("Expires", "expires", "EXPIRES")+"="+pick("Tue, 10 Nov 2009 23:00:00 GMT", "Mon, 01 Jan 2024 00:00:00 GMT", "Fri, 31 Dec 2100 23:59:59 GMT", "Thu, 01 Jan 1970 00:00:00 GMT", "Wed, 31 Dec 1969 23:59:59 GMT", "Thu, 01 Jan 1970 00:00:01 GMT", "Mon, 01 Jan 1900 00:00:00 GMT"))
 					case 2:
 						segs = append(segs, pick("Domain", "domain", "DOMAIN", "dom")+"="+pick("example.com", ".x.org", "", "\"q.com\"", "a b"))
 					case 3:
